@@ -468,3 +468,91 @@ Proof.
     rewrite <- (sumf_reindex N s _ Hb Hinj). apply sumf_ext. intros j Hj.
     destruct (Hs j Hj) as (_ & _ & Ej & _). unfold mu, rhs_col. now rewrite Ej, Hk.
 Qed.
+
+(* ---- the concrete form: S', Q', cond' are S, Q, cond with the conditioning points listed in another
+   order (sg sends the old position of a point to its new position; sg' is its inverse) *)
+Definition cond_reordered (S S' : KSys R) (Q Q' : KTgt R) (cond cond' : list R) (sg sg' : nat -> nat) (t t' : nat) : Prop :=
+  ks_n S' = ks_n S /\ ks_unb S' = ks_unb S /\ ks_exact S' = ks_exact S /\ ks_sill S' = ks_sill S /\
+  ks_p S' = ks_p S /\ kt_only_mean Q' = kt_only_mean Q /\
+  (forall i, (i < ks_n S)%nat -> (sg i < ks_n S)%nat /\ (sg' i < ks_n S)%nat /\ sg' (sg i) = i /\ sg (sg' i) = i) /\
+  (forall i j, (i < ks_n S)%nat -> (j < ks_n S)%nat -> aget2 0 (ks_C S') (sg i) (sg j) = aget2 0 (ks_C S) i j) /\
+  (forall i, (i < ks_n S)%nat -> aget 0 (ks_err S') (sg i) = aget 0 (ks_err S) i) /\
+  (forall l i, (l < ks_p S)%nat -> (i < ks_n S)%nat -> aget2 0 (ks_drifts S') l (sg i) = aget2 0 (ks_drifts S) l i) /\
+  (forall i, (i < ks_n S)%nat -> aget2 0 (kt_c0 Q') (sg i) t' = aget2 0 (kt_c0 Q) i t /\
+                                 aget2 0 (kt_d0 Q') (sg i) t' = aget2 0 (kt_d0 Q) i t) /\
+  (forall l, (l < ks_p S)%nat -> aget2 0 (kt_drifts Q') l t' = aget2 0 (kt_drifts Q) l t) /\
+  (forall i, (i < ks_n S)%nat -> vec_of cond' (sg i) = vec_of cond i) /\
+  (forall i, (ks_n S <= i < ks_size S)%nat -> vec_of cond' i = vec_of cond i).
+
+Definition ext_perm (n : nat) (sg : nat -> nat) (i : nat) : nat := if (i <? n)%nat then sg i else i.
+
+Lemma cond_reordered_related S S' Q Q' cond cond' sg sg' t t' :
+  cond_reordered S S' Q Q' cond cond' sg sg' t t' ->
+  let N := ks_size S in let s := ext_perm (ks_n S) sg in let s' := ext_perm (ks_n S) sg' in
+  ks_size S' = N /\
+  (forall i, (i < N)%nat -> (s i < N)%nat /\ (s' i < N)%nat /\ s' (s i) = i /\ s (s' i) = i) /\
+  (forall i j, (i < N)%nat -> (j < N)%nat -> kmat_entry Rops S' (s i) (s j) = kmat_entry Rops S i j) /\
+  (forall i, (i < N)%nat -> rhs_entry Rops S' Q' (s i) t' = rhs_entry Rops S Q i t) /\
+  (forall i, (i < N)%nat -> vec_of cond' (s i) = vec_of cond i).
+Proof.
+  intros (Hn & Hu & He & Hsl & Hp & Hom & Hsg & HC & Herr & HF & Hc0 & HG & Hd1 & Hd2) N s s'.
+  assert (HuN : ks_u S' = ks_u S) by (unfold ks_u; now rewrite Hu).
+  assert (HN : ks_size S' = N) by (unfold N, ks_size; now rewrite Hn, HuN, Hp).
+  assert (Hs_lt : forall i, (i < ks_n S)%nat -> s i = sg i /\ (sg i < ks_n S)%nat).
+  { intros i Hi. unfold s, ext_perm. destruct (Nat.ltb_spec i (ks_n S)); [|lia]. split; auto. apply (Hsg i Hi). }
+  assert (Hs_ge : forall i, (ks_n S <= i)%nat -> s i = i).
+  { intros i Hi. unfold s, ext_perm. destruct (Nat.ltb_spec i (ks_n S)); [lia|reflexivity]. }
+  split; [exact HN|]. split; [|split; [|split]].
+  - intros i Hi. unfold s, s', ext_perm.
+    destruct (Nat.ltb_spec i (ks_n S)) as [Hlt|Hge].
+    + destruct (Hsg i Hlt) as (A & B & C1 & D).
+      destruct (Nat.ltb_spec (sg i) (ks_n S)); [|lia]. destruct (Nat.ltb_spec (sg' i) (ks_n S)); [|lia].
+      unfold N, ks_size. repeat split; auto; lia.
+    + destruct (Nat.ltb_spec i (ks_n S)); [lia|]. repeat split; auto.
+  - intros i j Hi Hj. unfold kmat_entry. rewrite Hn, HuN.
+    destruct (Nat.ltb_spec i (ks_n S)) as [Hi1|Hi1]; destruct (Nat.ltb_spec j (ks_n S)) as [Hj1|Hj1].
+    + destruct (Hs_lt i Hi1) as [-> Hsi]. destruct (Hs_lt j Hj1) as [-> Hsj].
+      destruct (Nat.ltb_spec (sg i) (ks_n S)); [|lia]. destruct (Nat.ltb_spec (sg j) (ks_n S)); [|lia].
+      rewrite HC, Herr by auto.
+      destruct (Nat.eqb_spec i j) as [->|Hne].
+      * rewrite Nat.eqb_refl. reflexivity.
+      * destruct (Nat.eqb_spec (sg i) (sg j)) as [E|_]; [|reflexivity].
+        exfalso. apply Hne. destruct (Hsg i Hi1) as (_ & _ & A & _). destruct (Hsg j Hj1) as (_ & _ & B & _). congruence.
+    + destruct (Hs_lt i Hi1) as [-> Hsi]. rewrite (Hs_ge j Hj1).
+      destruct (Nat.ltb_spec (sg i) (ks_n S)); [|lia]. destruct (Nat.ltb_spec j (ks_n S)); [lia|].
+      destruct (Nat.ltb_spec j (ks_n S + ks_u S)); [reflexivity|].
+      apply HF; auto. unfold N, ks_size in Hj. lia.
+    + rewrite (Hs_ge i Hi1). destruct (Hs_lt j Hj1) as [-> Hsj].
+      destruct (Nat.ltb_spec i (ks_n S)); [lia|]. destruct (Nat.ltb_spec (sg j) (ks_n S)); [|lia].
+      destruct (Nat.ltb_spec i (ks_n S + ks_u S)); [reflexivity|].
+      apply HF; auto. unfold N, ks_size in Hi. lia.
+    + rewrite (Hs_ge i Hi1), (Hs_ge j Hj1).
+      destruct (Nat.ltb_spec i (ks_n S)); [lia|]. destruct (Nat.ltb_spec j (ks_n S)); [lia|]. reflexivity.
+  - intros i Hi. unfold rhs_entry. rewrite Hn, HuN, Hom, He, Hsl. change (n0 Rops) with 0.
+    destruct (Nat.ltb_spec i (ks_n S)) as [Hi1|Hi1].
+    + destruct (Hs_lt i Hi1) as [-> Hsi]. destruct (Nat.ltb_spec (sg i) (ks_n S)); [|lia].
+      destruct (Hc0 i Hi1) as [-> ->]. reflexivity.
+    + rewrite (Hs_ge i Hi1). destruct (Nat.ltb_spec i (ks_n S)); [lia|].
+      destruct (Nat.ltb_spec i (ks_n S + ks_u S)); [reflexivity|].
+      apply HG. unfold N, ks_size in Hi. lia.
+  - intros i Hi. destruct (Nat.lt_ge_cases i (ks_n S)) as [Hi1|Hi1].
+    + destruct (Hs_lt i Hi1) as [-> _]. now apply Hd1.
+    + rewrite (Hs_ge i Hi1). apply Hd2. unfold N in Hi. lia.
+Qed.
+
+(* reordering the conditioning points (each system solved with its own two-sided inverse) does not change
+   the estimate and the error term *)
+Theorem cond_order_invariant S S' Q Q' Kinv Kinv' cond cond' chunk chunk' sg sg' t t' :
+  cond_reordered S S' Q Q' cond cond' sg sg' t t' ->
+  shape0 Kinv = ks_size S -> shape0 Kinv' = ks_size S -> (0 < ks_size S)%nat ->
+  (1 <= chunk)%nat -> (1 <= chunk')%nat -> (t < kt_m Q)%nat -> (t' < kt_m Q')%nat ->
+  meq (ks_size S) (mmul (ks_size S) (kmat_entry Rops S) (mat_of Kinv)) delta ->
+  meq (ks_size S) (mmul (ks_size S) (mat_of Kinv') (kmat_entry Rops S')) delta ->
+  aget 0 (fst (krige_raw Rops S' Q' Kinv' cond' chunk')) t' = aget 0 (fst (krige_raw Rops S Q Kinv cond chunk)) t /\
+  aget 0 (snd (krige_raw Rops S' Q' Kinv' cond' chunk')) t' = aget 0 (snd (krige_raw Rops S Q Kinv cond chunk)) t.
+Proof.
+  intros HR HN HN' H0 Hc Hc' Ht Ht' HI HI'.
+  destruct (cond_reordered_related S S' Q Q' cond cond' sg sg' t t' HR) as (HS & Hs & HK & Hk & Hd).
+  exact (cond_perm_invariant S S' Q Q' Kinv Kinv' cond cond' chunk chunk'
+           (ext_perm (ks_n S) sg) (ext_perm (ks_n S) sg') t t' HS HN HN' H0 Hc Hc' Ht Ht' Hs HK Hk Hd HI HI').
+Qed.
